@@ -8,10 +8,12 @@ import (
 	"errors"
 	"strings"
 
+	"github.com/smasher164/xid"
 	"github.com/theory/sqljson/path/ast"
 )
 
 var (
+	_ = xid.Start
 	_ ast.Node
 	_ strings.Builder
 )
@@ -344,3 +346,18 @@ func outLast() any                               { return nil }
 //@ modifies l.tokEnd
 //@ ensures [C03] string-token: l.tokPos >= 0 && l.gotString ==> r0 == uninterp[string]("builder_string", l.strBuf)
 //@ ensures [C03] none: l.tokPos < 0 ==> r0 == ""
+
+// ---------------------------------------------------------------------------
+// identifier characters (C03): a bare key or name starts with ID_Start, "_" or
+// a backslash (an escape) and continues with ID_Continue, as documented
+
+//@ func isIdentRune
+//@ props C03
+//@ pure
+//@ ensures [C03] first-character: i == 0 ==> r0 == (ch == '_' || ch == '\\' || xid.Start(ch))
+//@ ensures [C03] later-characters: i > 0 ==> r0 == (ch == '_' || ch == '\\' || xid.Continue(ch))
+
+//@ func isVariableRune
+//@ props C03
+//@ pure
+//@ ensures [C03] continue-characters: r0 == xid.Continue(ch)
